@@ -180,6 +180,16 @@ class Executor(ResolutionContext):
                 field_definition.type, nodes, path, info, res
             )
 
+        def on_error(err):
+            # Only a ResolverError is a field error. Anything else propagates
+            # (and aborts or crashes the request), but the field is over
+            # either way: the end hook fires on every runtime, like in
+            # `BlockingExecutor.resolve_field`.
+            if isinstance(err, ResolverError):
+                return fail(err)
+            end()
+            raise err
+
         try:
             coerced_args = self.argument_values(field_definition, node)
         except CoercionError as err:
@@ -197,11 +207,11 @@ class Executor(ResolutionContext):
                         )
                     ),
                     complete,
-                    else_=(ResolverError, fail),
+                    else_=(Exception, on_error),
                 )
             )
-        except ResolverError as err:
-            return fail(err)
+        except Exception as err:
+            return on_error(err)
 
     def _iterate_fields(
         self, parent_type: ObjectType, fields: GroupedFields
